@@ -44,6 +44,9 @@ pub struct Node {
 }
 #[compound]
 pub struct Tree(LTerm, LTerm, LTerm);
+/// a compound with an OPTIONAL field: Some(..) and None have one and zero children
+#[compound]
+pub struct Slot(LTerm, Option<LTerm>);
 
 #[derive(Clone)]
 pub struct Builder {
@@ -190,6 +193,19 @@ impl Builder {
                 let items: Vec<T> = t[1].as_array().unwrap().iter().map(|x| self.term(x)).collect();
                 LTerm::improper_from_array(&items)
             }
+            "cmp" if t[1] == "Slot" => {
+                // Slot(t, Some(u)) is written ["cmp","Slot",[t, ["cmp","Some",[u]]]], Slot(t, None) with ["cmp","None",[]]
+                let first = self.term(&t[2][0]);
+                let opt = &t[2][1];
+                let field: Option<T> = if opt[0] == "cmp" && opt[1] == "Some" {
+                    Some(self.term(&opt[2][0]))
+                } else if opt[0] == "cmp" && opt[1] == "None" {
+                    None
+                } else {
+                    panic!("harness: the second field of Slot must be Some(..) or None")
+                };
+                Slot_compound::_InnerSlot(first, field).into()
+            }
             "cmp" => {
                 let a: Vec<T> = t[2].as_array().unwrap().iter().map(|x| self.term(x)).collect();
                 match t[1].as_str().unwrap() {
@@ -199,6 +215,7 @@ impl Builder {
                     "Tree" => Tree_compound::_InnerTree(a[0].clone(), a[1].clone(), a[2].clone()).into(),
                     "Tuple" => (a[0].clone(), a[1].clone()).into(),
                     "Wrap" => Some(a[0].clone()).into(),
+                    "Some" | "None" => panic!("harness: Some/None only as the second field of Slot (use Wrap at top level)"),
                     other => panic!("harness: unknown compound type {}", other),
                 }
             }
